@@ -60,7 +60,7 @@ impl Family for C19Family {
         }
         // most runs: the first credential has a counter (the interesting case)
         if r.chance(5, 6) {
-            c.prelude[0].counter = Some(r.below(50) as u32);
+            c.prelude[0].counter = Some(if r.chance(1, 8) { *r.pick(&[0x7fff_fffdu32, 0x7fff_fffe, 0x7fff_ffff, 0xffff_fff0]) } else { r.below(50) as u32 });
         }
         let n_actors = if r.chance(1, 4) { 3 } else { 2 };
         let mode = r.below(5);
